@@ -108,6 +108,7 @@ structure Prog where
   clock : Nat → Option Nat                -- n-th synchronize call: lag, if any
   ext : Nat → List SchedReq               -- requests issued through a `Scheduler` handle from another
                                           -- thread during the n-th synchronize call (queue unlocked)
+  inits : Nat := 0                        -- models 0 .. inits-1 run an init script: `handler (initAid m) m t0`
 
 /-- `ActionKey::cancel` (or dropping an `AutoActionKey`) on every key stored so far under the name `k`. -/
 def cancelKey (s : St) (k : Nat) : St :=
@@ -257,9 +258,17 @@ def processEvent (prog : Prog) (aid m : Nat) (s : St) : St × Res :=
     let s := { s with log := .fire aid m s.now s.now :: s.log }
     (execH s (prog.handler aid m s.now), .ok)
 
-/-- `SimInit::init(t0)`: time write, one synchronize, then the models' init (no scheduling in this engine). -/
+/-- the action id under which the init script of model `m` is registered -/
+def initAid (m : Nat) : Nat := 9000000 + m
+
+/-- the `Model::init` of models 0 .. k-1, each a handler run at the current (start) time -/
+def runInits (prog : Prog) : Nat → St → St
+  | 0, s => s
+  | k + 1, s => let s := runInits prog k s; execH s (prog.handler (initAid k) k s.now)
+
+/-- `SimInit::init(t0)`: time write, one synchronize, then the models' init (which may schedule and cancel). -/
 def initSim (prog : Prog) (t0 : Nat) (tol : Option Nat) : St :=
-  (doSync prog t0 (writeTime t0 (St.init t0 tol))).1
+  runInits prog prog.inits (doSync prog t0 (writeTime t0 (St.init t0 tol))).1
 
 end NexoVerif.Sched
 
